@@ -47,6 +47,11 @@ def run(chk):
     chk.call(r3_exit, chk, rl)
     chk.call(r4_recorded, chk, rl, "C17.R4")
     chk.call(r5_job_codec, chk)
+    chk.call(r6_bound_job_is_fresh, chk)
+    chk.call(r6_no_state_shared_between_drivers, chk)
+    chk.call(r7_vectorised_wrappers_forward, chk)
+    chk.call(r8_runner_leaves_through_the_cleanup, chk, rl)
+    chk.call(r5b_loaders_and_converters, chk)
 
 
 def r1_descriptor(chk):
@@ -740,3 +745,133 @@ def r5_job_codec(chk):
             harg = f"{harg} altered by `{short(touched[0], 50)}`"
     chk.decide(len(hc) == 1 and harg == "attrs.asdict(self)", "C17.R5", f"{h.key}:digest-of-asdict", h.where(), "hash = digest(msgpack.dumps(attrs.asdict(self)))",
                "JobInput.hash does not digest the same mapping that dump writes")
+
+
+# ---------------------------------------------------------------------------------------------------------------------------
+def r6_bound_job_is_fresh(chk):
+    """What `Job.__get__` hands out is made in that very call: every `return` gives a local that was bound to `copy(self)` (or a new
+    instance) in this call, and nothing is parked on the driver instance (`obj.__dict__[...] = bound`, setattr(obj, ...)).  A bound job
+    remembered per driver freezes executable / nprocs / envars at the first access: reconfigure the driver between two runs and
+    the old settings are prepared again."""
+    prog = chk.prog
+    g = prog.func(f"{JOB}:Job.__get__")
+    chk.analysed(g)
+    obj = g.params()[1]
+    asg = assignments(g.node)
+    fresh = {n for n, vals in asg.items() if vals and all(isinstance(v, ast.Call) and (call_name(v) in ("copy", "copy.copy", "copy.deepcopy", "deepcopy", "type(self)", "self.__class__", "Job")
+                                                                                        or norm(v.func) in ("type(self)", "self.__class__")) for v in vals)}
+    rets = [r for r in walk_no_nested(g.node) if isinstance(r, ast.Return) and r.value is not None]
+    chk.require(len(rets) >= 1, "Job.__get__ returns nothing")
+    stale = [r for r in rets if not (isinstance(r.value, ast.Name) and r.value.id in fresh) and norm(r.value) != "self"]
+    # aliases of the driver's namespace
+    ns = {obj} | {n for n, vals in asg.items() if any((isinstance(v, ast.Call) and call_name(v) in ("getattr", "vars") and v.args and norm(v.args[0]) == obj) or
+                                                        (isinstance(v, ast.Attribute) and norm(v.value) == obj and v.attr == "__dict__") for v in vals)}
+    parked = [t for t in walk_no_nested(g.node) if isinstance(t, (ast.Assign, ast.AugAssign)) and any(p_.split(".")[0].split("[")[0] in ns and ("." in p_ or "[" in p_) for p_ in stored_paths(t))]
+    parked += [c for c in walk_no_nested(g.node) if isinstance(c, ast.Call) and ((call_name(c) == "setattr" and c.args and norm(c.args[0]) in ns) or
+                                                                                  (isinstance(c.func, ast.Attribute) and c.func.attr in ("setdefault", "update", "__setattr__") and norm(c.func.value).split(".")[0] in ns))]
+    key = f"{g.key}:hands-out-a-job-made-in-this-call"
+    if stale or parked:
+        w = stale[0] if stale else parked[0]
+        chk.fail("C17.R1", key, g.where(w), f"`{short(w, 60)}`: Job.__get__ " + ("returns something it did not make in this call" if stale else "parks the bound job on the driver instance") +
+                 " - the settings (executable, nprocs, envars) are those of the first access; a driver reconfigured between two runs prepares the old command again")
+    else:
+        chk.ok("C17.R1", key, g.where(rets[0]), f"{len(rets)} return(s), each of a copy made in this call ({sorted(fresh)}); nothing stored on `{obj}`")
+
+
+def r6_no_state_shared_between_drivers(chk):
+    """Nothing reachable from the driver constructor or from the descriptor keeps module-level state (a cache of PATH lookups keyed
+    by the program's default name makes the second driver instance with another executable prepare the first one's command)."""
+    from . import c12
+
+    prog = chk.prog
+    eff = c12.effects(prog)
+    for spec in ("molli.pipeline.driver:DriverBase.__init__", f"{JOB}:Job.__get__"):
+        root = prog.func(spec)
+        chk.analysed(root)
+        c12.r2_no_hidden_state(chk, root, eff, "C17.R1")
+
+
+def r7_vectorised_wrappers_forward(chk):
+    """`prepare` / `process` of a vectorised job are `_prepare_iter` / `_process_iter`: each hands the caller's extra positional and keyword
+    arguments on to the per-item function (a rewrite around map / partial that keeps **kwargs and loses *args builds every command
+    with the defaults)."""
+    prog = chk.prog
+    job = prog.cls(f"{JOB}:Job")
+    n = 0
+    for wrapper, inner in (("_prepare_iter", "_prepare"), ("_process_iter", "_process")):
+        f = prog.method(job, wrapper)
+        if f is None:
+            continue
+        n += 1
+        chk.analysed(f)
+        va, kw = f.node.args.vararg, f.node.args.kwarg
+        chk.require(va is not None and kw is not None, f"Job.{wrapper} no longer takes *args / **kwargs")
+        calls = [c for c in ast.walk(f.node) if isinstance(c, ast.Call) and (norm(c.func) in (f"self.{inner}",) or
+                                                                            ((call_name(c) or "").split(".")[-1] == "partial" and c.args and norm(c.args[0]) == f"self.{inner}"))]
+        chk.require(len(calls) >= 1, f"Job.{wrapper}: the call of self.{inner} was not found")
+        c = calls[0]
+        star = any(isinstance(a, ast.Starred) and norm(a.value) == va.arg for a in c.args)
+        dstar = any(k.arg is None and norm(k.value) == kw.arg for k in c.keywords)
+        chk.decide(star and dstar, "C17.R7", f"{f.key}:forwards-args-and-kwargs", f.where(c), f"self.{inner}(..., *{va.arg}, **{kw.arg})",
+                   f"Job.{wrapper} calls `{short(c, 60)}`: " + ("*" + va.arg if not star else "**" + kw.arg) + f" of the caller is dropped - a vectorised job called with extra "
+                   "arguments prepares every command with the defaults (`--charge 0 --uhf 0` instead of the requested values)")
+    chk.require(n >= 1, "no vectorised wrapper found on Job")
+
+
+def r8_runner_leaves_through_the_cleanup(chk, rl):
+    """The runner works in a TemporaryDirectory and leaves by raising SystemExit (`exit(code)` / `sys.exit`), which unwinds the `with`
+    blocks: the scratch directory is removed whatever the outcome.  `os._exit` reachable from run_local ends the process on the spot -
+    a failing job leaves its scratch directory (and unflushed captures) behind."""
+    from . import c12
+
+    prog = chk.prog
+    eff = c12.effects(prog)
+    paths = eff.reach([rl])
+    hard = []
+    for k in paths:
+        fn = eff.funcs[k]
+        if not fn.module.name.startswith("molli.pipeline"):
+            continue
+        for c in ast.walk(fn.node):
+            if isinstance(c, ast.Call) and (call_name(c) or "") in ("os._exit", "_exit", "os.abort", "os.kill"):
+                hard.append((fn, c))
+    # a module-level function that takes the name of the builtin the runner leaves through
+    shadow = [f_ for f_ in prog.functions([RUN]) if f_.qualname in ("exit", "quit")]
+    key = f"{rl.key}:leaves-by-unwinding"
+    if hard:
+        fn, c = hard[0]
+        chk.fail("C17.R2", key, fn.where(c), f"`{short(c, 40)}` in {fn.qualname} is reachable from run_local: the process ends without unwinding `with TemporaryDirectory(...)` - "
+                 "the scratch directory of a failing job is left behind")
+    else:
+        chk.ok("C17.R2", key, rl.where(), f"{len(paths)} function(s) reachable from run_local, none ends the process without unwinding" + (f"; `{shadow[0].qualname}` shadows the builtin (noted)" if shadow else ""))
+
+
+def r5b_loaders_and_converters(chk):
+    """(a) JobInput.load / JobOutput.load read the file on every call (a memoised loader keeps answering with what the file held the first
+    time: a job that failed in run 1 and succeeds in run 2 is judged by the old output).  (b) a converter on a JobInput / JobOutput field
+    keeps every entry it is given: `{k: v for k, v in d.items() if v}` drops an override to the empty string (CUDA_VISIBLE_DEVICES="")."""
+    prog = chk.prog
+    for cname in ("JobInput", "JobOutput"):
+        ci = prog.cls(f"{JOB}:{cname}")
+        mem = ci.members.get("load")
+        chk.require(mem is not None and mem.func is not None, f"{cname}.load vanished")
+        memo = [norm(d) for d in mem.func.decorator_list if any(k_ in norm(d) for k_ in ("cache", "lru_cache"))]
+        chk.decide(not memo, "C17.R5", f"{ci.module.relpath}:{cname}.load:reads-the-file-on-every-call", f"{ci.module.relpath}:{mem.func.lineno}", "not memoised",
+                   f"{cname}.load is memoised ({', '.join(memo)}): within one process a rewritten file is never read again - the outcome of an earlier run is reported for the current one")
+        for fld in prog.fields(ci):
+            conv = fld.get("converter")
+            if conv is None:
+                continue
+            fn = prog.func(f"{JOB}:{norm(conv)}") if isinstance(conv, ast.Name) and prog.has_func(f"{JOB}:{norm(conv)}") else None
+            body = fn.node if fn is not None else conv
+            bad = None
+            for comp in [x for x in ast.walk(body) if isinstance(x, ast.comprehension)]:
+                tnames = {n.id for n in ast.walk(comp.target) if isinstance(n, ast.Name)}
+                for c in comp.ifs:
+                    t = c.operand if isinstance(c, ast.UnaryOp) and isinstance(c.op, ast.Not) else c
+                    if isinstance(t, ast.Name) and t.id in tnames:
+                        bad = bad or c
+            chk.decide(bad is None, "C17.R5", f"{ci.module.relpath}:{cname}.{fld['name']}:converter-keeps-every-entry", f"{ci.module.relpath}:{fld['node'].lineno}",
+                       f"converter `{short(conv, 30)}` keeps every entry",
+                       f"the converter of {cname}.{fld['name']} drops entries by truthiness (`if {short(bad, 20) if bad is not None else ''}`): an environment override to the empty string "
+                       "vanishes from the job - the command runs with the parent's value")
